@@ -55,7 +55,7 @@ func pureFunctions(e *env) {
 	ask := func(line string) string {
 		o, err := e.drv.Ask(line)
 		if err != nil {
-			e.res.Note("driver: %v", err)
+			e.res.Fatalf("pure-functions: model driver: %v", err)
 			return "driver-error"
 		}
 		return o
@@ -126,7 +126,7 @@ func pureFunctions(e *env) {
 	// --- FindOldestBlockAtOrAfter, exhaustively on the 14 stored blocks of the plain base chain
 	base, err := getBase("plain/false", 11, false, true, 18, 14)
 	if err != nil {
-		e.res.Note("pure-functions: %v", err)
+		e.res.Fatalf("pure-functions: base image: %v", err)
 		return
 	}
 	var ts []uint64
